@@ -436,6 +436,10 @@ func init() {
 		}
 		return nil
 	}
+	harnessAPI["vSteps"] = func(e *Engine, st *State, a []Value, ci ssa.CallInstruction) Value {
+		st.maxSteps = int(a[0].(BV).T.C)
+		return nil
+	}
 	harnessAPI["vExpectPanic"] = func(e *Engine, st *State, a []Value, ci ssa.CallInstruction) Value {
 		st.expectPanic = true
 		return nil
@@ -542,7 +546,7 @@ func (e *Engine) ufApply(st *State, name string, outBits int, parts Slice, injec
 		sl := po.Cells[poff+i].(Slice)
 		lens[i] = st.concreteSize(sl.Len, "vUF part length")
 	}
-	sig := name
+	sig := fmt.Sprintf("%s_o%d", name, outBits/8)
 	var args []*Term
 	for i := 0; i < np; i++ {
 		sig += fmt.Sprintf("_%d", lens[i])
